@@ -11,6 +11,7 @@ using namespace lk;
 namespace lk {
 std::function<void()>* g_hold[8];
 WInfo g_winfo[4];
+uint64_t g_quiesce = ~uint64_t(0);
 void* g_other = nullptr;
 }
 
@@ -45,6 +46,7 @@ void body(const Prog& p)
 {
     const Instance& in = g_insts[p.inst];
     g_nhist = 0;
+    lk::g_quiesce = ~uint64_t(0);
     hx::win_reset();
     for (auto& h : lk::g_hold) h = nullptr;
     size_t base_blocks = live_blocks();
@@ -84,6 +86,7 @@ void body(const Prog& p)
             MC_CHECK(g_hist[i].kind == HK_READ, "reader-blocked-by-reader",
                      "%s returned a null handle although only another reader held the lock", opc_name[g_hist[i].op]);
     }
+    lk::g_quiesce = stamp();  // every client has returned, no handle is held: deferred modifications are due at the next access
     if (hx::g_win_shared_reads > 0) cover(1);
     // the lock must be free again
     MC_CHECK(!is_locked(in.mutex_addr(w)), "leaked-lock", "the wrapper's mutex is still locked after all handles were released");
@@ -268,7 +271,9 @@ void make_items(const Options& o, std::vector<Item>& items)
         };
         if (thorough) gen(o, items, ii, al, {2, 1}, 3, 3, any);
         else if (al.size() <= 8) gen(o, items, ii, al, {2, 1}, 3, 3, reduced);
-        if (thorough && al.size() <= 8) gen(o, items, ii, al, {2, 2}, 2, 2, any);
+        // deferred_guarded: two generations of queued writes need two operations on each side
+        if (!thorough && in.deferred) gen(o, items, ii, al, {2, 2}, 3, 3, any);
+        if (thorough && al.size() <= 8) gen(o, items, ii, al, {2, 2}, in.deferred ? 3 : 2, in.deferred ? 3 : 2, any);
         if (thorough && al.size() <= 8) gen(o, items, ii, al, {1, 1, 1, 1}, 2, 2, any);
 #endif
     }
